@@ -5,19 +5,7 @@
 From SwiftMT Require Import Base.Bytes Engine.Layout Engine.Tokens Engine.Facts.
 From SwiftMT Require Export gen.Layouts.
 
-Fixpoint forallb2 {A : Type} (p : A -> A -> bool) (a b : list A) : bool :=
-  match a, b with
-  | [], [] => true
-  | x :: a', y :: b' => p x y && forallb2 p a' b'
-  | _, _ => false
-  end.
-
-Definition layouts_ok : bool :=
-  forallb (fun p => wf_layout (snd p)) all_layouts
-  && forallb (fun p => snd p) layout_entry_ok
-  && Nat.eqb (length all_layouts) 30
-  && forallb2 bytes_eqb cursor_letters_req letters7 && forallb2 bytes_eqb cursor_letters_opt letters7
-  && forallb2 bytes_eqb cursor_letters_peek letters26.
+From SwiftMT Require Export Engine.Defs.
 
 Lemma gen_layouts_ok : layouts_ok = true.
 Proof. vm_compute. reflexivity. Qed.
@@ -28,6 +16,3 @@ Proof.
   do 5 (apply andb_true_iff in OK; destruct OK as [OK ?]).
   rewrite forallb_forall in OK. apply (OK (T, L) H).
 Qed.
-
-Definition layout_of (T : bytes) : list stmt :=
-  match lookup T all_layouts with Some L => L | None => [] end.
